@@ -19,7 +19,7 @@ EXPLANATION = (
 NOT_DECIDED = ["printed precision beyond the format specifications (11.3e, 9.5f)", "numpy's string-to-number parsing (library)"]
 ASSUMPTIONS = ["python slice semantics", "the lemma: for len-3 = 3n+r, r in {1,2}, the strided split gives len(flux) = n+1"]
 TRUSTED = ["python ast", "sedlint E4"]
-MIN = {'ALG-19': 9, 'CFG-12': 5, 'FLAG-2': 2, 'AGREE-1': 8}
+MIN = {'ALG-19': 10, 'CFG-12': 7, 'FLAG-2': 2, 'AGREE-1': 8}
 TECHNIQUE = 'static analysis: slice/stride composition as affine index maps in polynomial normal form; guard-dominates-use path rules; finite-domain evaluation of the flag predicate'
 
 N = sym('n')
@@ -27,9 +27,9 @@ LEN = sym('LEN')
 
 
 class View:
-    """columns offset + stride*j (j >= 0), optional exclusive stop"""
-    def __init__(self, off, stride=1, stop=None, scalar=False):
-        self.off, self.stride, self.stop, self.scalar = off, stride, stop, scalar
+    """columns offset + stride*j (j >= 0), optional exclusive stop; ``rows`` set for a (n, k) reshape of a run of columns"""
+    def __init__(self, off, stride=1, stop=None, scalar=False, rows=None):
+        self.off, self.stride, self.stop, self.scalar, self.rows = off, stride, stop, scalar, rows
 
 
 def ev_int(e, env):
@@ -82,12 +82,26 @@ def ev_view(e, env):
         cn = chain(e.func) or ''
         if cn.split('.')[-1] in ('array', 'asarray', 'float64', 'float', 'int', 'float32', 'str', 'list') and e.args:
             return ev_view(e.args[0], env)
+        if isinstance(e.func, ast.Attribute) and e.func.attr == 'reshape':
+            base = ev_view(e.func.value, env)
+            shape = e.args[0].elts if len(e.args) == 1 and isinstance(e.args[0], ast.Tuple) else e.args
+            if base is not None and not base.scalar and base.stride == 1 and len(shape) == 2:
+                k = ev_int(shape[1], env)
+                if k is not None and k.is_const() and k.const_value().denominator == 1:
+                    return View(base.off, 1, base.stop, rows=int(k.const_value()))
         return None
     if isinstance(e, ast.Subscript):
         base = ev_view(e.value, env)
         if base is None or base.scalar:
             return None
         s = e.slice
+        if base.rows is not None:
+            # x.reshape(n, k)[:, c] : every k-th column starting at c
+            if isinstance(s, ast.Tuple) and len(s.elts) == 2 and isinstance(s.elts[0], ast.Slice) and s.elts[0].lower is None and s.elts[0].upper is None and s.elts[0].step is None:
+                c = ev_int(s.elts[1], env)
+                if c is not None and c.is_const():
+                    return View(base.off + c, base.rows, base.stop)
+            return None
         if isinstance(s, ast.Slice):
             lo = ev_int(s.lower, env) if s.lower is not None else Poly()
             hi = ev_int(s.upper, env) if s.upper is not None else None
@@ -168,6 +182,19 @@ def run(ctx):
             okk = okk and v.stop is not None and alg.is_zero(under_layout(v.stop) - stops[attr])[0]
         ctx.expect(okk, 'ALG-19', inst, where(fa, st), '%s[j] <- column %s%s' % (attr, alg.show(off), (' + %d*j' % stride) if stride else ''),
                    '%s[j] <- column %s + %d*j (stop %s)' % (attr, alg.show(under_layout(v.off)), v.stride, alg.show(under_layout(v.stop)) if v.stop is not None else None), 'layout')
+    # a surplus column must change the length of flux/error (so the setters' length checks can reject the line),
+    # unless the column count is compared with 3(n+1) explicitly
+    explicit = False
+    for n_ in walk_local(fa.node):
+        if isinstance(n_, ast.If) and any(isinstance(x, ast.Raise) for x in n_.body) and 'len(' in up(n_.test) and ('%' in up(n_.test) or '3 *' in up(n_.test) or '* 3' in up(n_.test)):
+            explicit = True
+    for attr in ('flux', 'error'):
+        got = assigned.get(attr)
+        if got is None or got[0] is None:
+            continue
+        v, st = got
+        ctx.expect(v.stop is None or explicit, 'CFG-12', 'surplus columns reach %s' % attr, where(fa, st), 'the run of columns feeding %s is open-ended: a line with extra columns gives it the wrong length and is rejected' % attr,
+                   'the columns feeding %s stop at column %s: extra columns at the end of a line are silently dropped instead of being rejected' % (attr, alg.show(under_layout(v.stop)) if v.stop is not None else ''), 'bounded-slice')
     # EOF guard first
     colvars = [k for k, v in env.items() if isinstance(v, View) and v.off.is_zero() and v.stride == 1 and v.stop is None and not v.scalar]
     tests_ok = set()
@@ -176,21 +203,34 @@ def run(ctx):
     okk = first_raise is not None and first_raise[1] in tests_ok and any('EOFError' in x for x in first_raise[2]) and not first_raise[3]
     ctx.expect(bool(okk), 'ALG-19', 'fewer than three columns ends the input', where(fa, first_raise[0] if first_raise else None),
                'raises EOFError before any field is parsed', 'guard is %s' % (list(first_raise[1:3]) if first_raise else None,), 'eof-guard')
-    # to_ascii inverse layout
-    fmt_calls = [c for c in calls(ta.node) if isinstance(c.func, ast.Attribute) and c.func.attr == 'format']
+    # to_ascii inverse layout: the fields emitted, in source order, whatever way the pieces are joined
+    import re as _re
+    fmt_calls = [c for c in calls(ta.node) if isinstance(c.func, ast.Attribute) and c.func.attr == 'format' and isinstance(c.func.value, ast.Constant) and isinstance(c.func.value.value, str)]
     fmt_calls.sort(key=lambda c: (c.lineno, c.col_offset))
-    seq = [[up(a) for a in c.args] for c in fmt_calls]
     me = ta.params[0]
-    head = seq[0] if seq else []
-    flags_loop = [n for n in walk_local(ta.node) if isinstance(n, ast.For) and up(n.iter) == '%s.valid' % me]
-    pair = [s for s in seq if len(s) == 2]
-    pair_ok = bool(pair) and pair[-1][0].startswith('%s.flux[' % me) and pair[-1][1].startswith('%s.error[' % me) and pair[-1][0].split('[')[1] == pair[-1][1].split('[')[1]
-    ok = head == ['%s.name' % me, '%s.x' % me, '%s.y' % me] and bool(flags_loop) and pair_ok
-    if ok:
-        # order: head, then flags loop, then pairs loop
-        ok = fmt_calls[0].lineno < flags_loop[0].lineno < [c for c in fmt_calls if len(c.args) == 2][-1].lineno
-    ctx.expect(ok, 'ALG-19', 'to_ascii emits the inverse layout', where(ta), 'name, x, y ; one flag per filter ; then (flux[j], error[j]) per filter',
-               'format calls emit %s' % seq, 'to-ascii-layout')
+    fields = []
+    for c in fmt_calls:
+        for m_ in _re.finditer(r'\{(\d*)(?::([^}]*))?\}', c.func.value.value):
+            k = int(m_.group(1)) if m_.group(1) else len([f for f in fields if f[2] is c])
+            if k < len(c.args):
+                fields.append((up(c.args[k]), m_.group(2) or '', c))
+    seq = [(a, spec) for a, spec, c in fields]
+    if len(seq) < 6:
+        ctx.undecided('ALG-19', 'to_ascii emits the inverse layout', where(ta), 'formatted fields not recognised: %s' % seq)
+    else:
+        head = [a for a, sp in seq[:3]]
+        loopvars = {n_.target.id: up(n_.iter) for n_ in walk_local(ta.node) if isinstance(n_, (ast.For, ast.comprehension)) and isinstance(n_.target, ast.Name)}
+        flag_fields = [(a, sp) for a, sp in seq[3:] if loopvars.get(a) == '%s.valid' % me or a.startswith('%s.valid[' % me)]
+        rest = [(a, sp) for a, sp in seq[3:] if (a, sp) not in flag_fields]
+        pair_ok = len(rest) == 2 and rest[0][0].startswith('%s.flux[' % me) and rest[1][0].startswith('%s.error[' % me) and rest[0][0].split('[')[1] == rest[1][0].split('[')[1]
+        order_ok = bool(flag_fields) and seq.index(flag_fields[0]) < seq.index(rest[0]) if rest and flag_fields else False
+        ok = head == ['%s.name' % me, '%s.x' % me, '%s.y' % me] and len(flag_fields) == 1 and pair_ok and order_ok
+        ctx.expect(ok, 'ALG-19', 'to_ascii emits the inverse layout', where(ta), 'name, x, y ; one flag per filter ; then (flux[j], error[j]) per filter',
+                   'fields are emitted as %s' % [a for a, sp in seq], 'to-ascii-layout')
+        nspec = seq[0][1]
+        trunc = _re.search(r'\.(\d+)s?$', nspec)
+        ctx.expect(not trunc or int(trunc.group(1)) >= 40, 'ALG-19', 'to_ascii does not truncate the name', where(ta), 'name field %r pads but never cuts' % nspec,
+                   'name field %r cuts names longer than %s characters: formatting and parsing back does not preserve the name' % (nspec, trunc.group(1) if trunc else ''), 'name-truncated')
     # ---- CFG-12
     ctx.expect(order.index('valid') < order.index('flux') and order.index('valid') < order.index('error') if all(k in order for k in ('valid', 'flux', 'error')) else False,
                'CFG-12', 'valid assigned before flux and error', where(fa), 'assignment order %s' % order, 'assignment order %s: the length cross-check has nothing to compare with' % order, 'order')
